@@ -8,6 +8,7 @@ import (
 	"sort"
 	"strings"
 
+	"golang.org/x/tools/go/cfg"
 	"golang.org/x/tools/go/packages"
 )
 
@@ -233,6 +234,33 @@ func ruleR027(c *Ctx) {
 				key := fmt.Sprintf("%s#promote:%s.%s[%d]", fname, node, field, ordinal[node+"."+field])
 				rs := byNode[node]
 				if len(rs) == 0 {
+					// a first-match node (switch) folded in a loop over its alternatives: the conditions of taking an
+					// alternative, of moving on and so of reaching the default are decided by R02.8
+					firstMatch := false
+					ast.Inspect(fd.Body, func(y ast.Node) bool {
+						loop, ok := y.(*ast.RangeStmt)
+						if !ok {
+							return true
+						}
+						if xs, ok := ast.Unparen(loop.X).(*ast.SelectorExpr); ok {
+							if nt := namedOf(info.TypeOf(xs.X)); nt != nil && nt.Obj().Pkg() != nil && nt.Obj().Pkg().Path() == modPath {
+								// the promoted child belongs to the range variable of the loop, or to the node the loop runs over and the return follows the loop
+								if vid, ok := loop.Value.(*ast.Ident); ok {
+									if bid, ok := ast.Unparen(sel.X).(*ast.Ident); ok && info.ObjectOf(bid) == info.ObjectOf(vid) {
+										firstMatch = true
+									}
+								}
+								if nodeStr(c.Fset, xs.X) == nodeStr(c.Fset, sel.X) && r.Pos() > loop.End() {
+									firstMatch = true
+								}
+							}
+						}
+						return true
+					})
+					if firstMatch {
+						c.OK(key, r.Pos(), "child of a first-match node folded in a loop over its alternatives: decided by R02.8")
+						continue
+					}
 					c.Undecided(key, r.Pos(), "a %s node is replaced by its child %s; the generator has no conditional form for %s nodes from which the condition of this rewrite could be read", node, field, node)
 					continue
 				}
@@ -333,3 +361,188 @@ func ruleR027(c *Ctx) {
 }
 
 var _ = packages.NeedName
+var _ = cfg.KindBody
+
+// ---------------------------------------------------------------------------
+// R02.8 first-match folding.
+//
+// The generated code of a switch tries its cases in order: the first case
+// whose constant equals the switch value (decided by the isEqual hook without
+// an error) delivers the value, an error of the hook ends the evaluation, the
+// default is taken if no case matched. Where the optimizer folds such a node
+// in a loop over the cases, (a) it may replace the node by the value of the
+// current case only where the case constant is known, the hook reported
+// success and equality; (b) it may move on to the next case only where the
+// current case is *decided negative*: constant known, hook succeeded, not
+// equal. Moving on past a case that is not constant, or past an error,
+// selects a later case or the default although the program would take the
+// earlier case or fail.
+
+func ruleR028(c *Ctx) {
+	decls, fg := c.optimizerMethods()
+	if len(decls) == 0 {
+		c.Undecided("funcGen:Optimizer-implementations", token.NoPos, "no type implementing parser2.Optimizer found in funcGen")
+		return
+	}
+	info := fg.TypesInfo
+	n := 0
+	for _, fd := range decls {
+		fname := declName(fg, fd)
+		g := c.CFG(fd)
+		ast.Inspect(fd.Body, func(x ast.Node) bool {
+			rs, ok := x.(*ast.RangeStmt)
+			if !ok || rs.Value == nil {
+				return true
+			}
+			vid, ok := rs.Value.(*ast.Ident)
+			if !ok || vid.Name == "_" {
+				return true
+			}
+			// range over a field of a node of the parser: sw.Cases
+			xs, ok := ast.Unparen(rs.X).(*ast.SelectorExpr)
+			if !ok {
+				return true
+			}
+			nodeT := namedOf(info.TypeOf(xs.X))
+			if nodeT == nil || nodeT.Obj().Pkg() == nil || nodeT.Obj().Pkg().Path() != modPath {
+				return true
+			}
+			vobj := info.ObjectOf(vid)
+			// promotions of a child of the alternative: return c.Value
+			var promos []*ast.ReturnStmt
+			promoted := ""
+			inspectNoLit(rs.Body, func(y ast.Node) bool {
+				r, ok := y.(*ast.ReturnStmt)
+				if !ok || len(r.Results) != 1 {
+					return true
+				}
+				sel, ok := ast.Unparen(r.Results[0]).(*ast.SelectorExpr)
+				if !ok {
+					return true
+				}
+				if id, ok := ast.Unparen(sel.X).(*ast.Ident); ok && info.ObjectOf(id) == vobj && isNamed(info.TypeOf(sel), modPath, "AST") {
+					promos = append(promos, r)
+					promoted = sel.Sel.Name
+				}
+				return true
+			})
+			if len(promos) == 0 {
+				return true
+			}
+			n++
+			key := fmt.Sprintf("%s#first-match:%s.%s", fname, nodeT.Obj().Name(), xs.Sel.Name)
+			// the facts: ok of the constant test on a child of the alternative, and (eq, err) of a generator hook
+			isConstOK := func(e ast.Expr) bool { // ident defined as 2nd result of a call whose argument is <alt>.<child>
+				id, ok := ast.Unparen(e).(*ast.Ident)
+				if !ok {
+					return false
+				}
+				as, i := definingAssign(info, fd, info.ObjectOf(id))
+				if as == nil || i != 1 || len(as.Rhs) != 1 {
+					return false
+				}
+				call, ok := ast.Unparen(as.Rhs[0]).(*ast.CallExpr)
+				if !ok || len(call.Args) != 1 {
+					return false
+				}
+				sel, ok := ast.Unparen(call.Args[0]).(*ast.SelectorExpr)
+				if !ok || sel.Sel.Name == promoted {
+					return false
+				}
+				aid, ok := ast.Unparen(sel.X).(*ast.Ident)
+				return ok && info.ObjectOf(aid) == vobj
+			}
+			hookResult := func(e ast.Expr, idx int) bool { // ident defined as result idx of a call of a func valued field (hook)
+				id, ok := ast.Unparen(e).(*ast.Ident)
+				if !ok {
+					return false
+				}
+				as, i := definingAssign(info, fd, info.ObjectOf(id))
+				if as == nil || i != idx || len(as.Rhs) != 1 || len(as.Lhs) != 2 {
+					return false
+				}
+				call, ok := ast.Unparen(as.Rhs[0]).(*ast.CallExpr)
+				if !ok {
+					return false
+				}
+				hs, ok := ast.Unparen(call.Fun).(*ast.SelectorExpr)
+				if !ok {
+					return false
+				}
+				s, ok := info.Selections[hs]
+				if !ok || s.Kind() != types.FieldVal {
+					return false
+				}
+				_, isSig := s.Obj().Type().Underlying().(*types.Signature)
+				return isSig
+			}
+			type fact struct {
+				name string
+				is   func(gd Guard) bool
+			}
+			constKnown := fact{"the case constant is known at compile time", func(gd Guard) bool { return gd.Val && !gd.Synth && isConstOK(gd.Cond) }}
+			noError := fact{"the equality hook reported no error", func(gd Guard) bool {
+				be, ok := ast.Unparen(gd.Cond).(*ast.BinaryExpr)
+				if !ok || (be.Op != token.EQL && be.Op != token.NEQ) {
+					return false
+				}
+				if y, ok := ast.Unparen(be.Y).(*ast.Ident); !ok || y.Name != "nil" {
+					return false
+				}
+				return hookResult(be.X, 1) && (be.Op == token.EQL) == gd.Val
+			}}
+			equal := func(want bool) fact {
+				return fact{map[bool]string{true: "the hook says equal", false: "the hook says not equal"}[want], func(gd Guard) bool {
+					return !gd.Synth && gd.Val == want && hookResult(gd.Cond, 0)
+				}}
+			}
+			var problems []string
+			// (a) promotions
+			for _, r := range promos {
+				gds := g.Guards(r)
+				for _, f := range []fact{constKnown, noError, equal(true)} {
+					has := false
+					for _, gd := range gds {
+						if f.is(gd) {
+							has = true
+						}
+					}
+					if !has {
+						problems = append(problems, fmt.Sprintf("the value of the case is taken (line %d) although it is not established that %s", c.Fset.Position(r.Pos()).Line, f.name))
+					}
+				}
+			}
+			// (b) moving on to the next case
+			bodyBlk, loopBlk, _ := g.RangeBlocks(rs)
+			if bodyBlk == nil || loopBlk == nil {
+				c.Undecided(key, rs.Pos(), "loop not found in the control flow graph")
+				return true
+			}
+			for _, f := range []fact{constKnown, noError, equal(false)} {
+				f := f
+				bad := g.PathEdgesFrom(bodyBlk, func(b *cfg.Block) bool { return b == loopBlk }, nil, func(cond ast.Expr, val bool) bool {
+					var leaves []Guard
+					expandGuard(cond, val, &leaves)
+					for _, gd := range leaves {
+						if f.is(gd) {
+							return false // this edge establishes the fact: not part of a bad path
+						}
+					}
+					return true
+				})
+				if bad {
+					problems = append(problems, fmt.Sprintf("the loop moves on to the next case on a path on which it is not established that %s", f.name))
+				}
+			}
+			if len(problems) == 0 {
+				c.OK(key, rs.Pos(), "the folding loop takes a case only if its constant is known and the hook reports equality without error, and moves on only past cases decided negative")
+			} else {
+				c.Violation(key, rs.Pos(), "folding of a first-match node (%s) deviates from the order of evaluation of the generated code: %s — a later case or the default is selected although the program takes an earlier case or fails", nodeT.Obj().Name(), strings.Join(problems, "; "))
+			}
+			return true
+		})
+	}
+	if n == 0 {
+		c.Note("funcGen.optimizer#first-match-folding", token.NoPos, "the optimizer folds no first-match node (switch) today")
+	}
+}
